@@ -51,6 +51,14 @@ def known_sig(t, l, clause):
         out['resume_sent_start_delivered'] = (not any(st['ev']['kind'] == 'op' and st['ev']['what'] == 'rerun' for st in t['steps'][:l])) and any(
             st['ev']['kind'] == 'msg' and st['ev']['what'] == 'start_task' and not st['ev'].get('fr', True) and not st['ev'].get('dup')
             for st in t['steps'][:l])
+    if ck == 'Prescribed' and rearmed:
+        # a join that had finished was re-armed (KF-C04-1) and the execution ended (a fail / succeed command, an unhandled error) before
+        # its refresh job ran: it is left WAITING in a finished execution
+        o_ = t['steps'][l - 1]['obs']
+        root_ = [w for w in o_['wf'] if w['sid'] == 'r']
+        wt = [x['name'] for x in o_['tk'] if x['wf'] == 'r' and x['state'] == 'WAITING']
+        out['rearmed_joins_left_waiting_in_finished_execution'] = bool(wt) and bool(root_) and root_[0]['state'] in ('SUCCESS', 'ERROR', 'CANCELLED') \
+            and all(n_ in rearmed_names for n_ in wt)
     # a re-armed join had FAILED before and its on-error / on-complete targets had been started already (they stay as they are)
     routed = False
     for k_, st_ in enumerate(t['steps'][:l]):
